@@ -17,6 +17,12 @@ LocalTimesC == {FieldsOf(s) : s \in {0, 2, 3, 4, 5, 7}}
 ValidFile == Encode(0, <<>>, <<>>, [tr |-> <<<<2, 0>>>>, ty |-> <<[off |-> 3, dst |-> 0]>>, lp |-> <<>>],
                     [tab |-> <<67, 69, 84, 0>>, idx |-> <<0>>, isstd |-> <<>>, isut |-> <<>>, footer |-> <<>>])
 FilesC == {ValidFile, SubSeq(ValidFile, 1, Len(ValidFile) - 1), <<84, 90>>}
+RulesC == { [std |-> Ty(0, 0, 65), dst |-> Ty(3600, 1, 66), sd |-> <<"M", 3, 2, 0>>, st |-> 7200, ed |-> <<"M", 11, 1, 0>>, et |-> 7200],
+            [std |-> Ty(0, 0, 65), dst |-> Ty(3600, 1, 66), sd |-> <<"J", 59>>, st |-> 0, ed |-> <<"J", 60>>, et |-> -84600],      \* order flips between years: refused
+            [std |-> Ty(-90000, 0, 65), dst |-> Ty(3600, 1, 66), sd |-> <<"J", 1>>, st |-> 0, ed |-> <<"J", 200>>, et |-> 0] }     \* offset outside the window
+TzStringsC == { <<85, 84, 67, 48>>, <<69, 83, 84, 53, 69, 68, 84, 44, 77, 51, 46, 50, 46, 48, 44, 77, 49, 49, 46, 49, 46, 48>>,
+                <<69, 83, 84, 53, 69, 68, 84, 44, 77, 51, 46, 50, 46, 48, 47, 45, 49, 44, 77, 49, 49, 46, 49, 46, 48>>, <<69, 83, 84>> }   \* ".../-1,..." needs extensions
+NanosC == { WShl3(Wt(2)), WAddInt(WShl3(Wt(3)), -1), WAddInt(WShl3(Wt(-1)), 500000000) }
 TzValuesC == {<<>>, <<65>>, <<58, 65>>, <<85, 84, 67, 48>>, LocaltimeName}
 DirsC == <<<<47, 122>>, <<47, 119>>>>
 VfsC == <<<<<<47, 119, 47, 65>>, ValidFile>>, <<<<47, 122, 47, 65>>, Unreadable>>>>
